@@ -116,3 +116,44 @@ Lemma tie_dump_print_string : TIE_dump_print_string =
    (2, "fprintf(out,""\\x%02x"",c)");
    (0, "fputc('""',out)")].
 Proof. reflexivity. Qed.
+
+(* mtbl/writer.c: mtbl_writer_options_init *)
+Lemma tie_wr_mtbl_writer_options_init : TIE_wr_mtbl_writer_options_init =
+  [(0, "structmtbl_writer_options*opt");
+   (0, "opt=my_calloc(1,sizeof(*opt))");
+   (0, "opt->compression_type=DEFAULT_COMPRESSION_TYPE");
+   (0, "opt->compression_level=DEFAULT_COMPRESSION_LEVEL");
+   (0, "opt->block_size=DEFAULT_BLOCK_SIZE");
+   (0, "opt->block_restart_interval=DEFAULT_BLOCK_RESTART_INTERVAL");
+   (0, "opt->pool=NULL");
+   (0, "return(opt)")].
+Proof. reflexivity. Qed.
+
+(* mtbl/writer.c: mtbl_writer_options_destroy *)
+Lemma tie_wr_mtbl_writer_options_destroy : TIE_wr_mtbl_writer_options_destroy =
+  [(0, "if(*opt)my_free(*opt)")].
+Proof. reflexivity. Qed.
+
+(* mtbl/writer.c: mtbl_writer_options_set_compression *)
+Lemma tie_wr_mtbl_writer_options_set_compression : TIE_wr_mtbl_writer_options_set_compression =
+  [(0, "switch(compression_type)");
+   (1, "caseMTBL_COMPRESSION_NONE:caseMTBL_COMPRESSION_SNAPPY:caseMTBL_COMPRESSION_ZLIB:caseMTBL_COMPRESSION_LZ4:caseMTBL_COMPRESSION_LZ4HC:caseMTBL_COMPRESSION_ZSTD:break");
+   (1, "default:assert(0)");
+   (0, "opt->compression_type=compression_type")].
+Proof. reflexivity. Qed.
+
+(* mtbl/writer.c: mtbl_writer_options_set_compression_level *)
+Lemma tie_wr_mtbl_writer_options_set_compression_level : TIE_wr_mtbl_writer_options_set_compression_level =
+  [(0, "opt->compression_level=compression_level")].
+Proof. reflexivity. Qed.
+
+(* mtbl/writer.c: mtbl_writer_options_set_block_restart_interval *)
+Lemma tie_wr_mtbl_writer_options_set_block_restart_interval : TIE_wr_mtbl_writer_options_set_block_restart_interval =
+  [(0, "if(block_restart_interval<MIN_BLOCK_RESTART_INTERVAL)block_restart_interval=MIN_BLOCK_RESTART_INTERVAL");
+   (0, "opt->block_restart_interval=block_restart_interval")].
+Proof. reflexivity. Qed.
+
+(* mtbl/writer.c: mtbl_writer_options_set_threadpool *)
+Lemma tie_wr_mtbl_writer_options_set_threadpool : TIE_wr_mtbl_writer_options_set_threadpool =
+  [(0, "opt->pool=pool")].
+Proof. reflexivity. Qed.
